@@ -14,7 +14,8 @@ RULE = ("two invocations on one client (or a client and its clone) under a contr
         "rpc/encoded multiref replies and for clone(); plus random schedules with up to 3 preemptions at line "
         "granularity among 2..4 threads; every call's request bytes and returned value are compared with the "
         "sequential run; non-trivial = every schedule with a preemption strictly inside the invocation; distinct = "
-        "distinct (scenario, schedule)")
+        "distinct (scenario, schedule)"
+        " ; plus: every clone's own message history, a clone over a caller-written Transport (D41), line-level sweeps inside the generated shared-state writers followed by a third call, identical never-seen replies, two different operations in flight with a header Element configured")
 ASSUMPTIONS = ["preemption points are Python trace events (function call/return, line); switches inside C code "
                "(expat callbacks aside) are not exercised",
                "the scheduler serialises the threads itself, so GIL switch timing is not what is being sampled"]
